@@ -87,6 +87,18 @@ def constants():
         c.update(_serial_literals())
     except Exception:
         pass
+    try:    # C10/C09: bpf command numbers, map geometry and buffer lengths of the map entry points (probed under the emulated kernel)
+        c.update(_map_calls())
+    except Exception:
+        pass
+    try:    # C01: the Opcode table (aliases included), FIXED_BASE, the small-constant window (probed)
+        c.update(_generator_literals())
+    except Exception:
+        pass
+    try:    # C19: process-variable formats: letters, load/store opcode widths, the shift fmt_addr adds to _start (probed)
+        c.update(_procvar_literals())
+    except Exception:
+        pass
     return c
 
 
@@ -239,3 +251,97 @@ def _serial_literals():
     if len(marker) != 1 or not dev.connected:
         raise ValueError("unexpected Serial init handshake")
     return {"serial_pstr_size": int(size), "serial_read_max": int(n), "serial_init_byte": int(marker[0])}
+
+
+def _map_calls():
+    """C10/C09: drive the real map entry points once under the emulated kernel of vh/props/c10.py and
+    record the command numbers they issue, the geometry they give to create_map and the lengths of the
+    buffers they pass (hash variable read with format "B": the value buffer must not follow the format)."""
+    from ebpfcat.bpf import MapType, MapFlags
+    from ebpfcat.hashmap import Dict
+    from .props import c10
+    out = {}
+    for k in ("HASH", "ARRAY", "PROG_ARRAY", "PERCPU_ARRAY", "LRU_HASH"):
+        out["mt_" + k] = MapType[k].value
+    out["mf_MMAPABLE"] = MapFlags.MMAPABLE.value
+    K, _, _, _ = c10.run_impl({"possible": 2, "online": 2, "decl": {"kind": "hashvars", "vars": [["B", 0]]},
+                               "calls": [["get", 0], ["set", 0, 1]]})
+    (_, t, ks, vs, _, _), = K.created
+    (cu, _, kl0, vl0, _), (cl, _, kl1, vl1, _), (cu2, _, kl2, vl2, _) = K.log
+    if t != MapType.HASH.value or cu != cu2 or kl0 != kl1 or kl1 != kl2 or vl0 != vl2:
+        raise ValueError("unexpected hash variable probe")
+    out.update(bpf_LOOKUP=cl, bpf_UPDATE=cu, hv_key_size=ks, hv_value_size=vs, hv_key_len=kl1, hv_get_len=vl1, hv_set_len=vl2,
+               hv_max_ordinal=256 ** kl1 - 1)
+    K, _, _, _ = c10.run_impl({"possible": 2, "online": 2, "decl": {"kind": "dict", "key": ["H"], "value": ["B"], "size": 3, "lru": False},
+                               "calls": [["setitem", [1], [2]], ["pop", [1]], ["iter"], ["del", [1]]]})
+    cmds = [e[0] for e in K.log]
+    if len(cmds) != 5 or cmds[0] != cu or cmds[2] != cmds[3]:
+        raise ValueError("unexpected Dict probe")
+    out.update(dict_pop_cmd=cmds[1], bpf_NEXT_KEY=cmds[2], bpf_DELETE=cmds[4], bpf_LOOKUP_DELETE=21,
+               dict_default_size=Dict(None, None).size)
+    K, _, _, _ = c10.run_impl({"possible": 3, "online": 3, "decl": {"kind": "percpu", "fmts": ["B"]}, "calls": [["read"]]})
+    (_, _, ks, _, mx, _), = K.created
+    out.update(arr_key_size=ks, arr_key_len=K.log[0][2], arr_max_entries=mx)
+    K, _, _, _ = c10.run_impl({"possible": 2, "online": 2, "decl": {"kind": "progarray"}, "calls": [["register", 0, True]]})
+    (_, _, ks, vs, mx, _), = [m for m in K.created if m[1] == MapType.PROG_ARRAY.value]
+    (c1, _, k1, v1, _), (c2, _, k2, v2, _), (c3, _, k3, _, _) = K.log
+    if (c1, c2, c3) != (cl, cu, out["bpf_DELETE"]) or k1 != k2 or k2 != k3:
+        raise ValueError("unexpected register_sync_group probe")
+    out.update(prog_key_size=ks, prog_value_size=vs, prog_max_entries=mx, prog_key_len=k1, prog_lookup_len=v1, prog_update_len=v2)
+    return out
+
+
+def _generator_literals():
+    """C01: every member of `ebpf.Opcode` (aliases such as H == REG included) as `op_<NAME>`, the fixed-point
+    base, and the window of `Constant.small_constant` found by bisection on the real property (the bounds are
+    literals inside the property; the window is assumed to be one interval around 0)."""
+    from ebpfcat import ebpf
+    c = {}
+    for name, m in ebpf.Opcode.__members__.items():
+        c["op_" + name] = int(m.value)
+    c["FIXED_BASE"] = int(ebpf.Expression.FIXED_BASE)
+    small = lambda v: bool(ebpf.Constant(None, v).small_constant)
+    if not small(0):
+        raise ValueError("0 is not a small constant")
+    lo, hi = 0, 1 << 70          # largest small non-negative value
+    while hi - lo > 1:
+        mid = (lo + hi) // 2
+        lo, hi = (mid, hi) if small(mid) else (lo, mid)
+    c["small_hi"] = lo + 1       # exclusive upper bound
+    lo2, hi2 = -(1 << 70), 0     # smallest small value
+    while hi2 - lo2 > 1:
+        mid = (lo2 + hi2) // 2
+        lo2, hi2 = (lo2, mid) if small(mid) else (mid, hi2)
+    c["small_lo_neg"] = -hi2     # the lower bound is -small_lo_neg (inclusive)
+    return c
+
+
+def _procvar_literals():
+    """C19: for the letters a process variable can have, the width of the load/store opcode `fmt_to_opcode` selects and
+    `struct.calcsize('<'+letter)`; the register `PacketVar` addresses are relative to; and, on a real `PacketVar` of a
+    terminal whose sync group assigned base 100 and whose position is 7, what `_start` and `fmt_addr` return."""
+    import struct
+    from ebpfcat import ebpf, ebpfcat as eb
+    from ebpfcat.ethercat import SyncManager
+    letters = "BHIQbhiq"
+    wid = {ebpf.Opcode.B: 1, ebpf.Opcode.H: 2, ebpf.Opcode.W: 4, ebpf.Opcode.DW: 8}
+    out = {"pv_fmt_chars": [ord(ch) for ch in letters],
+           "pv_fmt_widths": [wid[ebpf.fmt_to_opcode(ch)] for ch in letters],
+           "pv_fmt_calcsize": [struct.calcsize("<" + ch) for ch in letters],
+           "pv_base_register": int(eb.PacketVar.base_register)}
+    term = object()
+
+    class G:
+        pdo_assign = {term: {SyncManager.IN: 100}}
+
+    class D:
+        sync_group = G()
+    pv = eb.PacketVar(term, SyncManager.IN, 7, "H")
+    start = pv._start(D())
+    fmt, addr = pv.fmt_addr(D())
+    bit = eb.PacketVar(term, SyncManager.IN, 7, 5).fmt_addr(D())
+    if fmt != "H" or bit[0] != (5, 1) or bit[1] != addr:
+        raise ValueError("unexpected PacketVar.fmt_addr")
+    out["pv_start_probe"] = int(start)       # base 100, position 7
+    out["pv_addr_probe"] = int(addr)
+    return out
